@@ -76,9 +76,17 @@ func (c *Ctx) boundRole(fn *ssa.Function, v ssa.Value) (who, which string) {
 			return "other", tag
 		}
 	case *ssa.TypeAssert:
-		// minField.Call(...)[0].Interface().(*int64) with minField = MethodByName("Min")
-		if name := reflectMethodProbe(x.X, 0); name == "Min" || name == "Max" {
-			return "other", strings.ToLower(name)
+		// minField.Call(...)[0].Interface().(*int64) with minField = MethodByName("Min"), or
+		// FieldByName("MinValue").Interface().(*int64)
+		switch name := reflectMethodProbe(x.X, 0); name {
+		case "Min", "MinValue":
+			return "other", "min"
+		case "Max", "MaxValue":
+			return "other", "max"
+		}
+	case *ssa.Extract:
+		if ta, ok := x.Tuple.(*ssa.TypeAssert); ok && x.Index == 0 {
+			return c.boundRole(fn, ta)
 		}
 	}
 	return "", ""
@@ -92,7 +100,7 @@ func reflectMethodProbe(v ssa.Value, depth int) string {
 	switch x := v.(type) {
 	case *ssa.Call:
 		n := core.StaticCalleeName(&x.Call)
-		if n == "(reflect.Value).MethodByName" && len(x.Call.Args) == 2 {
+		if (n == "(reflect.Value).MethodByName" || n == "(reflect.Value).FieldByName") && len(x.Call.Args) == 2 {
 			s, _ := core.ConstString(x.Call.Args[1])
 			return s
 		}
@@ -224,8 +232,8 @@ func (c *Ctx) overlapAnchor(fn *ssa.Function, cmp *ssa.BinOp) *ssa.BasicBlock {
 			}
 		}
 		for _, in := range b.Instrs {
-			if ta, ok := in.(*ssa.TypeAssert); ok && !ta.CommaOk {
-				if name := reflectMethodProbe(ta.X, 0); name == "Min" || name == "Max" {
+			if ta, ok := in.(*ssa.TypeAssert); ok {
+				if name := reflectMethodProbe(ta.X, 0); name == "Min" || name == "Max" || name == "MinValue" || name == "MaxValue" {
 					if best == nil || best.Dominates(b) {
 						best = b
 					}
@@ -589,4 +597,115 @@ func (c *Ctx) ruleBoundsConsulted(rule string) {
 		}
 	}
 	c.R.Floor(rule, 4)
+}
+
+// R-CONVERTALL (C15 "every schema is compatible with itself"): ConvertToObjectSchema is how every object-like consumer
+// recognises an object-like producer. Every type of the package that implements the Object interface must be covered
+// by it: by a case of its type switch (the type itself, or an interface it implements), or by the reflective
+// fallback, which finds a struct field named ObjectSchema. A type that is not covered falls through to the raw-data
+// path and is rejected by every object, reference and scope - including itself.
+func (c *Ctx) ruleConvertAll(rule string) {
+	fn := c.fn(rule, "schema.ConvertToObjectSchema")
+	pkg := c.M.Types["schema"]
+	if fn == nil || pkg == nil {
+		return
+	}
+	objT, _ := pkg.Scope().Lookup("Object").(*types.TypeName)
+	if objT == nil {
+		c.R.Unresolved(rule, "interface schema.Object")
+		return
+	}
+	objIface, _ := objT.Type().Underlying().(*types.Interface)
+	if objIface == nil {
+		c.R.Unresolved(rule, "interface schema.Object")
+		return
+	}
+	// cases of the type switch: asserted types of the TypeAsserts on the parameter
+	var cases []types.Type
+	fallbackField := ""
+	for _, b := range fn.Blocks {
+		for _, in := range b.Instrs {
+			switch x := in.(type) {
+			case *ssa.TypeAssert:
+				if x.X == ssa.Value(fn.Params[0]) {
+					cases = append(cases, x.AssertedType)
+				}
+			case *ssa.Call:
+				if core.StaticCalleeName(&x.Call) == "(reflect.Value).FieldByName" && len(x.Call.Args) == 2 {
+					if s, ok := core.ConstString(x.Call.Args[1]); ok {
+						fallbackField = s
+					}
+				}
+			}
+		}
+	}
+	n := 0
+	for _, name := range pkg.Scope().Names() {
+		tn, ok := pkg.Scope().Lookup(name).(*types.TypeName)
+		if !ok || tn.IsAlias() {
+			continue
+		}
+		named, ok := tn.Type().(*types.Named)
+		if !ok {
+			continue
+		}
+		st, isStruct := named.Underlying().(*types.Struct)
+		if !isStruct {
+			continue
+		}
+		// generic types: instantiate checks on the origin with its own type parameters
+		ptr := types.NewPointer(named)
+		if !implementsLoosely(ptr, objIface) && !implementsLoosely(named, objIface) {
+			continue
+		}
+		n++
+		k := key(rule, "schema.ConvertToObjectSchema", "covers "+name)
+		covered := ""
+		for _, ct := range cases {
+			if ci, isIface := ct.Underlying().(*types.Interface); isIface {
+				if implementsLoosely(ptr, ci) || implementsLoosely(named, ci) {
+					covered = "case " + typeStr(ct)
+				}
+				continue
+			}
+			if cn := structOf(ct); cn != nil && cn == named.Origin() {
+				covered = "case " + typeStr(ct)
+			}
+		}
+		if covered == "" && fallbackField != "" {
+			for i := 0; i < st.NumFields(); i++ {
+				if st.Field(i).Name() == fallbackField {
+					covered = "reflective fallback: field " + fallbackField
+				}
+			}
+		}
+		if covered != "" {
+			c.R.Ok(rule, k, c.M.Pos(fn.Pos()), "object-like type recognised by ConvertToObjectSchema", covered)
+		} else {
+			c.R.Bad(rule, k, c.M.Pos(fn.Pos()), name+" implements Object but ConvertToObjectSchema does not recognise it",
+				"as a producer it falls through to the raw-data path and is rejected by every object, reference and scope consumer - a "+name+" is not even compatible with itself")
+		}
+	}
+	if n == 0 {
+		c.R.Unresolved(rule, "implementers of schema.Object")
+	}
+}
+
+// implementsLoosely: t has every method of iface by name (generic receivers make exact signature checks against an
+// uninstantiated type unreliable; names are enough to tell the object-like types apart).
+func implementsLoosely(t types.Type, iface *types.Interface) bool {
+	ms := types.NewMethodSet(t)
+	for i := 0; i < iface.NumMethods(); i++ {
+		found := false
+		for j := 0; j < ms.Len(); j++ {
+			if ms.At(j).Obj().Name() == iface.Method(i).Name() {
+				found = true
+				break
+			}
+		}
+		if !found {
+			return false
+		}
+	}
+	return iface.NumMethods() > 0
 }
